@@ -184,6 +184,8 @@ func boundaryGen(r *rand.Rand, n int, tier string, emit func(Case)) {
 			mk = 1
 		case 2:
 			mk = 2 // general-position float image
+		case 3:
+			mk = 3 + r.Intn(2)
 		}
 		c := pairCase(l, g, geom.Geometry{}, mk)
 		delete(c, "wb")
